@@ -207,6 +207,11 @@ fn one_case(ctx: &Ctx, case: u64, l: &mut Local) {
         if let Some(n) = &nbf {
             p.insert("nbf".into(), n.clone());
         }
+        // a revocation reference / a credential type are ordinary claims: no bearing on the window
+        if (vi as u64 + case) % 4 == 1 {
+            p.insert("status".into(), json!({"status_list": {"idx": 7, "uri": "https://status.example/lists/1"}}));
+            p.insert("vct".into(), json!("https://credentials.example/identity_credential"));
+        }
         // the header's typ (and other members) say nothing about the validity window either
         let mut hdr = json!({"alg": cfg.alg.name()});
         match (vi as u64 + case) % 12 {
